@@ -100,6 +100,10 @@ var keyAlphabet = []string{"a", "bb", "k3", "key-4"}
 func (g *gen) cfgStd() stack.Cfg {
 	c := stack.Cfg{L1: "std", L2: "std", GetEAbsolute: g.p(1, 2)}
 	c.Shape = pick(g, []string{"l1only", "l1l2", "l1l2", "l1l2batch", "l1l2batch"})
+	if g.p(1, 4) {
+		// the chunking L1 handler is a deployment option of every shape
+		c.L1 = "chunked"
+	}
 	if g.p(1, 3) {
 		c.Locked = true
 		c.MultiReader = g.p(1, 2)
